@@ -122,6 +122,13 @@ func init() {
 			hi, lo := bits.Mul64(a[0].(uint64), a[1].(uint64))
 			return tuple{hi, lo}
 		}
+		// inside the declared input ranges the product often provably fits 63 bits:
+		// then the high word is 0 and everything stays 64-bit
+		iv := fr.i.X.intervals()
+		x, y := iv.Of(u64(a[0])), iv.Of(u64(a[1]))
+		if x.OK && y.OK && x.Lo >= 0 && y.Lo >= 0 && x.Hi*y.Hi < 4.0e18 {
+			return tuple{uint64(0), mkSym(smt.Mul(u64(a[0]), u64(a[1])), types.Uint64)}
+		}
 		p := smt.Mul(smt.Zext(u64(a[0]), 128), smt.Zext(u64(a[1]), 128))
 		return tuple{mkSym(smt.Extract(p, 127, 64), types.Uint64), mkSym(smt.Extract(p, 63, 0), types.Uint64)}
 	})
@@ -143,6 +150,9 @@ func init() {
 		}
 		if fr.i.X.decide(smt.Ule(y, hi)) {
 			panic(runtimeError("integer overflow"))
+		}
+		if hi.IsConst() && hi.Lo == 0 {
+			return tuple{mkSym(smt.UDiv(lo, y), types.Uint64), mkSym(smt.URem(lo, y), types.Uint64)}
 		}
 		n := smt.Concat(hi, lo)
 		d := smt.Zext(y, 128)
